@@ -142,7 +142,29 @@ def build_threads(cfg):
         wraps.append('ascon_permute')
         cflags.append('-DASIM_WRAP_PERMUTE=1')
     return cfg.build_harness('threads', [os.path.join(W, 'threads.cpp'), os.path.join(S, 'simrng.c'), os.path.join(S, 'simdev.c')], extra_cflags=cflags,
+                             link_objs=_asm_storage_named(cfg.lib_objs),
                              ldflags=['-Wl,' + ','.join('--wrap=' + w for w in wraps), '-rdynamic', '-ldl'])
+
+
+def _asm_storage_named(objs):
+    """Assembly objects cannot be instrumented, so their loads and stores are invisible to the detector.  What can be
+    seen is their writable static storage: any .data/.bss an assembly object brings along is renamed to asmdata/asmbss,
+    for which the linker defines __start_/__stop_ symbols; the world compares those bytes before and after a run."""
+    import subprocess
+    out = []
+    for o in objs:
+        if not o.endswith('.S.o'):
+            out.append(o)
+            continue
+        p = subprocess.run(['size', '-A', o], stdout=subprocess.PIPE, stderr=subprocess.DEVNULL, text=True)
+        sizes = {l.split()[0]: int(l.split()[1]) for l in p.stdout.splitlines() if len(l.split()) >= 2 and l.split()[1].isdigit()}
+        if sizes.get('.bss', 0) == 0 and sizes.get('.data', 0) == 0:
+            out.append(o)
+            continue
+        r = o[:-2] + '.named.o'
+        subprocess.run(['objcopy', '--rename-section', '.bss=asmbss', '--rename-section', '.data=asmdata', o, r], check=True)
+        out.append(r)
+    return out
 
 
 RNG_SEAM = dict(extra_src=[os.path.join(S, 'simrng.c'), os.path.join(S, 'simdev.c')], ldflags=['-Wl,--wrap=getrandom,--wrap=open,--wrap=read,--wrap=close'])
@@ -451,7 +473,7 @@ def check_C16(tier, seed):
                      'races are decided at the granularity of clang -O1 loads/stores of the C sources (a race is a source-level property), not of the shipped -O3 binary',
                      'stack accesses are private to their thread; TLS blocks are outside the executable\'s static storage, so a legitimate __thread variable does not alarm']
     n = 20000 if tier == 'quick' else 1000000
-    cfgs = [('c64', (4, 2, 4), n), ('asm', (4, 2, 4), n // 4), ('c32', (3, 3, 3), n // 5), ('dxor', (4, 4, 4), n // 8), ('gen', (2, 1, 2), n // 8)] if tier == 'quick' else \
+    cfgs = [('c64', (4, 2, 4), n), ('asm', (4, 2, 4), n // 4), ('c32', (3, 3, 3), n // 5), ('dxor', (4, 4, 4), n // 8), ('gen', (2, 1, 2), n // 8), ('asm', (3, 3, 3), n // 8)] if tier == 'quick' else \
            [('c64', (4, 2, 4), n), ('asm', (4, 2, 4), n // 4), ('c32', (3, 3, 3), n // 4), ('dxor', (4, 4, 4), n // 8), ('gen', (2, 1, 2), n // 8)]
     for be, sh, k in cfgs:
         exe = world_exe('threads', be, sh, 'trace')
